@@ -40,9 +40,9 @@ Lemma mx_step_th_K r t th r' t' th' ev RH RW RS RP RD RQ RR :
   mx_K r' t' (mx_wQ th' + RQ) (mx_wW th' + RW) (mx_wP th' + RP) (mx_wD th' + RD) (mx_wR th' + RR).
 Proof.
   destruct th as [pc h todo].
-  unfold mx_step_th, mx_lok, mx_lok2, mx_J, mx_K, mx_wH, mx_wW, mx_wS, mx_wP, mx_wD, mx_wQ, mx_wR, mx_b2n.
+  unfold mx_step_th, mx_to_cas, mx_uslow_done, mx_lok, mx_lok2, mx_J, mx_K, mx_wH, mx_wW, mx_wS, mx_wP, mx_wD, mx_wQ, mx_wR, mx_b2n.
   cbn [xpc xh xtodo]. intros L L2 HR J K Hs.
-  destruct pc; [destruct todo as [|[sp st| |] rest]| | | | | destruct t as [|t0] | | | | | | | | |];
+  destruct pc; [destruct todo as [|[sp st| |] rest]| | | | | destruct t as [|t0] | | | | | | | | | |];
     mx_conds; inversion Hs; subst; clear Hs;
     cbn [xpc xh xtodo mx_mkth mx_set_l mx_slow_new mx_zero xl xk xs xn] in *;
     repeat match goal with o : mx_w |- _ => destruct o as [?l ?k ?s ?n] end; cbn [xl xk xs xn] in *;
@@ -78,10 +78,10 @@ Proof.
 Qed.
 
 Lemma mx_wR_le_wD th : mx_wR th <= mx_wD th.
-Proof. unfold mx_wR, mx_wD. destruct (xpc th) as [| | | | | | | | | | | | |hd|]; try destruct hd; lia. Qed.
+Proof. unfold mx_wR, mx_wD. destruct (xpc th) as [| | | | | | | | | | | | | |hd|]; try destruct hd; lia. Qed.
 
 Lemma mx_wD_split th : mx_wD th = mx_wG th + mx_wR th.
-Proof. unfold mx_wR, mx_wD, mx_wG. destruct (xpc th) as [| | | | | | | | | | | | |hd|]; try destruct hd; reflexivity. Qed.
+Proof. unfold mx_wR, mx_wD, mx_wG. destruct (xpc th) as [| | | | | | | | | | | | | |hd|]; try destruct hd; reflexivity. Qed.
 
 Lemma mx_sum_plus f g h l : (forall x, f x = g x + h x) -> mx_sum f l = mx_sum g l + mx_sum h l.
 Proof.
@@ -215,8 +215,8 @@ Theorem mx_trylock_acquire_accounting r t th r' t' th' how :
   (mx_wQ th' = 0 /\ mx_wW th' = 0 /\ mx_wP th' = 0 /\ mx_wD th' = 0 /\ mx_wR th' = 0 /\ mx_wS th' = 0) /\
   (forall Q W P D R, mx_K r t Q W P D R -> mx_K r' t' Q W P D R).
 Proof.
-  destruct th as [pc h todo]. unfold mx_step_th, mx_lok. cbn [xpc xh xtodo]. intros L Hs Hh.
-  destruct pc; [destruct todo as [|[sp st| |] rest]| | | | | destruct t as [|t0] | | | | | | | | |];
+  destruct th as [pc h todo]. unfold mx_step_th, mx_to_cas, mx_uslow_done, mx_lok. cbn [xpc xh xtodo]. intros L Hs Hh.
+  destruct pc; [destruct todo as [|[sp st| |] rest]| | | | | destruct t as [|t0] | | | | | | | | | |];
     mx_conds; inversion Hs; subst; clear Hs; try (destruct Hh; discriminate).
   - cbn [mx_zero xl xk xs]. do 5 (split; [reflexivity|]).
     split; [repeat split|]. split; [repeat split|].
@@ -279,7 +279,7 @@ Qed.
    them is taken -- a statement sanity check for mx_no_inconsistent_state *)
 Lemma mx_dead_ends_exist :
   snd (mx_step_th {| xl := true; xk := false; xs := false; xn := 0 |} 0
-         (mx_mkth (XLCas 0 0 true false {| xl := true; xk := false; xs := false; xn := 0 |}) false [])) = XEPanic /\
+         (mx_mkth (XLLoad 0 0 true false) false [])) = XEPanic /\
   snd (mx_step_th {| xl := true; xk := false; xs := true; xn := 1 |} 0 (mx_mkth (XLWoke 0 0 true) false [])) = XEPanic /\
   snd (mx_step_th {| xl := false; xk := false; xs := true; xn := 0 |} 0 (mx_mkth (XLWoke 0 0 true) false [])) = XEPanic /\
   snd (mx_step_th {| xl := true; xk := false; xs := true; xn := 1 |} 0 (mx_mkth (XLHand true) false [])) = XEPanic /\
